@@ -1,5 +1,4 @@
-\* quick: every (old, new) pair of iauth_xquery sections over {a.svc, b.svc} x {login, login-ipr, dronecheck, combined,
-\* bogus, absent} (36 sections, 1 296 pairs), earlier client on, one reload at any point of its activity, scripted probe
+\* thorough: every chain old -> new1 -> new2 over two names x 5 type words + absent (46 656 chains), earlier client on
 \* (checks/c17.py writes the same text with its own EmitMod / KeepOld)
 CONSTANTS
   Services <- NoServices
@@ -11,7 +10,7 @@ CONSTANTS
   NameOrder <- Names2
   RBug <- RB_none
   TypeWords <- Words5
-  MaxRl = 1
+  MaxRl = 2
   PreOn = TRUE
   Free = FALSE
   KeepOld = FALSE
